@@ -5,7 +5,7 @@ import ast
 import json
 import os
 import time
-from typing import Callable, Iterable, List, Optional, Sequence
+from typing import Callable, Dict, Iterable, List, Optional, Sequence
 
 from .index import Index, Func, AnalysisError, norm
 from .consts import Consts, UNKNOWN, known
@@ -337,7 +337,37 @@ class Checker:
             self.ob(rule, self.key(r, f) + f' [reference to {name}]',
                     fq in refs_ok or fq in allowed, self.where(r, f),
                     f'{name} passed as a value in {fq}')
+        # dynamic dispatch by name: getattr(x, 'name') / methodcaller('name')
+        # / setattr(x, 'name', ...) would bypass the syntactic call search
+        for n in self._dynamic_name_uses(name, scope):
+            f = self.owner(n)
+            fq = f.fq if f else '<module>'
+            self.ob(rule, self.key(n, f) + f' [dynamic use of {name!r}]',
+                    fq in refs_ok or fq in allowed, self.where(n, f),
+                    f'{name} reached through {norm(n.func)}(..., {name!r}) '
+                    f'in {fq}: not visible to the caller allow-list')
         return sites
+
+    def _dynamic_name_uses(self, name: str, scope=None):
+        key = ('dyn', id(scope) if not isinstance(scope, str) else scope)
+        cache = self.__dict__.setdefault('_dyn_cache', {})
+        if key not in cache:
+            table: Dict[str, list] = {}
+            for root in self.scope_nodes(scope):
+              for n in self.idx.walk(root):
+                if isinstance(n, ast.Call) and isinstance(
+                        n.func, (ast.Name, ast.Attribute)) and (
+                        n.func.id if isinstance(n.func, ast.Name)
+                        else n.func.attr) in (
+                        'getattr', 'setattr', 'delattr', 'methodcaller',
+                        'attrgetter', 'hasattr'):
+                    for a in n.args:
+                        if isinstance(a, ast.Constant) and isinstance(
+                                a.value, str):
+                            table.setdefault(a.value, []).append(n)
+            cache[key] = table
+        return [n for n in cache[key].get(name, [])
+                if norm(n.func).split('.')[-1] != 'hasattr']
 
     def who_writes(self, rule: str, attr: str, allowed, scope=None,
                    floor: int = 1, keep=None, min_depth=0):
